@@ -36,6 +36,8 @@ type mxWorld struct {
 	candApp  []int
 	freshN   int
 	focus    string // "" (whole matrix) | "edit" | "apps"
+	// recentUnstake: node key and output key of the node most recently targeted by a begin-unstake
+	recentUnstake [2]int
 }
 
 func newMxWorld(r *rand.Rand) *mxWorld {
@@ -172,6 +174,12 @@ func (w *mxWorld) genMxCase(r *rand.Rand) mxCaseSpec {
 		type tgt struct{ node, out int }
 		ts := []tgt{{w.custNode, -1}, {w.ncNode, w.ncOut}, {w.nodes[0], -1}, {w.nodes[1], -1}}
 		t := ts[r.Intn(len(ts))]
+		followUp := false
+		if w.recentUnstake[0] != 0 && r.Intn(3) == 0 {
+			// edit a node for which a begin-unstake was just submitted (it is waiting until the session ends)
+			t = tgt{w.recentUnstake[0], w.recentUnstake[1]}
+			followUp = true
+		}
 		out := chain.Addr(t.node)
 		if t.out >= 0 {
 			out = chain.Addr(t.out)
@@ -193,6 +201,9 @@ func (w *mxWorld) genMxCase(r *rand.Rand) mxCaseSpec {
 			out = chain.Addr(chain.KeyOutput0 + 60 + r.Intn(4)) // try to change the output address
 		}
 		msg := chain.MsgNodeStake(chain.Key(t.node), chains(), stake, url(), out, dg)
+		if followUp && t.out >= 0 && r.Intn(2) == 0 {
+			return mxCaseSpec{"node_edit", msg, t.out, "output", true, true}
+		}
 		switch r.Intn(4) {
 		case 0:
 			return mxCaseSpec{"node_edit", msg, mxStranger, "unrelated", false, false}
@@ -208,6 +219,7 @@ func (w *mxWorld) genMxCase(r *rand.Rand) mxCaseSpec {
 		type tgt struct{ node, out int }
 		ts := []tgt{{w.nodes[2], -1}, {w.ncNode, w.ncOut}, {w.nodes[3], -1}}
 		t := ts[r.Intn(len(ts))]
+		w.recentUnstake = [2]int{t.node, t.out}
 		switch r.Intn(4) {
 		case 0: // stranger names itself as signer: declared signer but not entitled
 			return mxCaseSpec{"node_unstake", chain.MsgNodeUnstake(chain.Addr(t.node), chain.Addr(mxStranger)), mxStranger, "unrelated-declared", false, true}
@@ -248,8 +260,14 @@ func (w *mxWorld) genMxCase(r *rand.Rand) mxCaseSpec {
 		}
 		stake := int64(1_000_000 + r.Int63n(30_000_000))
 		msg := chain.MsgAppStake(chain.Key(k), chains(), stake)
-		if r.Intn(4) == 0 {
+		switch r.Intn(5) {
+		case 0:
 			return mxCaseSpec{kind, msg, mxStranger, "unrelated", false, false}
+		case 1: // another (existing) application signs a stake message for this application
+			other := w.apps[r.Intn(len(w.apps))]
+			if other != k {
+				return mxCaseSpec{kind, msg, other, "other-application", false, false}
+			}
 		}
 		return mxCaseSpec{kind, msg, k, "owner", true, true}
 	case 7: // app unstake
